@@ -19,7 +19,7 @@ with open(os.path.join(src, "confirm.json")) as f:
     c = json.load(f)
 meta = {
     "property": pid,
-    "origin": "independent sub-agent given only the property text and a scratch worktree" + ({"b": " (second round)", "c": " (third round)", "d": " (fourth round)", "e": " (fifth round)", "f": " (sixth round)", "g": " (seventh round)"}.get(suffix, "")),
+    "origin": "independent sub-agent given only the property text and a scratch worktree" + ({"b": " (second round)", "c": " (third round)", "d": " (fourth round)", "e": " (fifth round)", "f": " (sixth round)", "g": " (seventh round)", "h": " (eighth round)"}.get(suffix, "")),
     "needs_to_manifest": needs,
     "confirmed_by_me": {
         "demo_on_unchanged_tree_exit": c["demo_without_rc"],
